@@ -1,1 +1,17 @@
 import BnpVerif.Props.C04
+#print axioms C04.select_refines
+#print axioms C04.concat_refines
+#print axioms C04.compact_preserves
+#print axioms C04.bytes_spec
+#print axioms C04.program_abs
+#print axioms C04.program_bytes
+#print axioms C04.field_text
+#print axioms C04.program_fields
+#print axioms C04.rest_text
+#print axioms C04.sam_extra_text
+#print axioms C04.replace_fields
+#print axioms C04.program_replace
+#print axioms C04.bam_records
+#print axioms C04.invB_sound
+#print axioms C04.buildOld_unsound
+#print axioms C04.buildFixed_witness
